@@ -496,6 +496,15 @@ class SubsetState(object):
         return XorState(self, other_state)
 
 
+def _clear_mask_caches():
+    # Masks are cached on the to_mask method of each subset state class
+    classes = [SubsetState]
+    while classes:
+        cls = classes.pop()
+        clear_cache(cls.to_mask)
+        classes.extend(cls.__subclasses__())
+
+
 class RoiSubsetStateNd(SubsetState):
     """
     A subset defined as the set of points in N dimensions that lie inside
@@ -1137,7 +1146,10 @@ class CompositeSubsetState(SubsetState):
                 mt_args = args
             self.state2.move_to(*mt_args)
         self.state1.move_to(*args)
-        clear_cache(self.to_mask)
+        # Any composite state that contains this one (including InvertState
+        # and MultiOrState, which cache their masks separately) may hold a
+        # mask computed before the move
+        _clear_mask_caches()
 
     @property
     def attributes(self):
